@@ -782,6 +782,7 @@ def rule_templates(rep, idx):
                     bad = 'for %s: %s' % (env, e)
                     break
                 want = ([th] if shape[0] == 'stmt' else []) if want_true else ([el] if shape[1] == 'stmt' else [])
+                ex = [x for x in ex if getattr(x, 'cls', '') != 'xcmp::SkipStatement']       # executing skip is executing nothing
                 if [id(x) for x in ex] != [id(x) for x in want]:
                     bad = 'for %s the condition (%s) is %s, but the template executes %s' % (
                         env, cname, 'true' if want_true else 'false', [x.name for x in ex] or 'nothing')
